@@ -7,6 +7,7 @@ import FerretVerif.Drv.Limbs
 import FerretVerif.Drv.Literal
 import FerretVerif.Drv.Layout
 import FerretVerif.Drv.Toml
+import FerretVerif.Drv.DepGraph
 
 open FerretVerif
 
@@ -42,6 +43,8 @@ def main (args : List String) : IO UInt32 := do
   | ["limbs"] => eachLine cmdLimbs; return 0
   | ["literal"] => eachLine cmdLiteral; return 0
   | ["layout"] => eachLine cmdLayout; return 0
+  | ["depgraph"] => eachLine cmdDepGraph; return 0
+  | ["sched"] => eachLine cmdSched; return 0
   | ["toml-fmt"] => eachLine cmdTomlFmt; return 0
   | ["toml-parseval"] => eachLine cmdTomlParseVal; return 0
   | ["toml-strip"] => eachLine cmdTomlStrip; return 0
